@@ -426,14 +426,12 @@ private:
 		// The event must be obtained in its own statement: the evaluation order of function arguments is
 		// unspecified, so the arguments may be moved into the tuple before getEvent reads them.
 		const EventType_ event = GetEvent::getEvent(std::forward<T>(first), args...);
-		doEnqueueItem(QueuedItemType(
+		if(doEnqueueItem(QueuedItemType(
 			PrototypeInfo::index,
 			event,
 			&HeterEventQueueBase::doDispatchItem<PrototypeInfo>,
 			typename PrototypeInfo::ArgsTuple(std::forward<T>(first), std::forward<Args>(args)...)
-		));
-
-		if(doCanProcess()) {
+		))) {
 			queueListConditionVariable.notify_one();
 		}
 	}
@@ -451,20 +449,20 @@ private:
 
 		// See the comment in the other doEnqueue overload for why the event is obtained in its own statement.
 		const EventType_ event = GetEvent::getEvent(std::forward<T>(first), args...);
-		doEnqueueItem(QueuedItemType(
+		if(doEnqueueItem(QueuedItemType(
 			PrototypeInfo::index,
 			event,
 			&HeterEventQueueBase::doDispatchItem<PrototypeInfo>,
 			typename PrototypeInfo::ArgsTuple(std::forward<Args>(args)...)
-		));
-
-		if(doCanProcess()) {
+		))) {
 			queueListConditionVariable.notify_one();
 		}
 	}
 
+	// Returns whether a waiting thread should be notified, decided while the queue mutex is
+	// still held (see EventQueue::doEnqueue).
 	template <typename T>
-	void doEnqueueItem(T && item)
+	bool doEnqueueItem(T && item)
 	{
 		BufferedItemList tempList;
 		EVENTPP_VERIF_POINT("hq.free.precheck");
@@ -488,6 +486,8 @@ private:
 		std::lock_guard<Mutex> queueListLock(queueListMutex);
 		EVENTPP_VERIF_ACCESS(&queueList, true, "hq.enqueue.splice");
 		queueList.splice(queueList.end(), tempList, it);
+
+		return doCanProcess();
 	}
 
 private:
